@@ -182,27 +182,45 @@ func checkC20(c *km.Ctx) {
 	}
 
 	// ---------- R-C20-2
-	got := map[string]map[string]int{}
-	pos := map[string]string{}
-	for _, fn := range c.P.AllFuncs {
-		if fn.Pkg == nil || fn.Pkg.Pkg.Path() != KMD {
-			continue
+	// publications reachable from a handler: in the handler itself (closures included) or in helpers it calls
+	// (not other route handlers), each call site of a helper counting for what the helper publishes
+	isHandler := map[*ssa.Function]bool{}
+	for _, rt := range c.Routes {
+		if rt.Handler != nil {
+			isHandler[rt.Handler] = true
 		}
-		for _, ci := range km.CallsIn(fn) {
-			n := km.CalleeFull(ci.Common())
-			if !strings.HasPrefix(n, notifierT+"Publish") || strings.HasSuffix(n, "PublishSSH") || strings.HasSuffix(n, "PublishX509") {
-				continue
+	}
+	pos := map[string]string{}
+	var count func(fn *ssa.Function, top string, depth int) map[string]int
+	count = func(fn *ssa.Function, top string, depth int) map[string]int {
+		out := map[string]int{}
+		fns := append([]*ssa.Function{fn}, fn.AnonFuncs...)
+		for _, f2 := range fns {
+			for _, ci := range km.CallsIn(f2) {
+				n := km.CalleeFull(ci.Common())
+				if strings.HasPrefix(n, notifierT+"Publish") && !strings.HasSuffix(n, "PublishSSH") && !strings.HasSuffix(n, "PublishX509") {
+					m := strings.TrimPrefix(n, notifierT)
+					out[m]++
+					if pos[top+"."+m] == "" {
+						pos[top+"."+m] = posOf(c, ci)
+					}
+					continue
+				}
+				if depth < 2 {
+					if g := km.StaticCallee(ci.Common()); g != nil && g.Blocks != nil && g.Pkg != nil && g.Pkg.Pkg.Path() == KMD && !isHandler[g] && g != fn {
+						for m, k := range count(g, top, depth+1) {
+							out[m] += k
+						}
+					}
+				}
 			}
-			m := strings.TrimPrefix(n, notifierT)
-			top := fn
-			for top.Parent() != nil {
-				top = top.Parent()
-			}
-			if got[top.Name()] == nil {
-				got[top.Name()] = map[string]int{}
-			}
-			got[top.Name()][m]++
-			pos[top.Name()+"."+m] = posOf(c, ci)
+		}
+		return out
+	}
+	got := map[string]map[string]int{}
+	for f := range eventReference {
+		if fn := c.P.Func("cmd/keymasterd", "(*RuntimeState)."+f); fn != nil {
+			got[f] = count(fn, f, 0)
 		}
 	}
 	var fnNames []string
